@@ -61,6 +61,17 @@ class UnsupportedByShim(Exception):
     Ends the run as inconclusive (exit 2), never as a violation."""
 
 
+DUMP = {"on": False, "max": 0, "items": []}     # thorough tier: a sample of discharged VCs as SMT-LIB2 for a second solver
+
+
+def _maybe_dump(solver, result):
+    if DUMP["on"] and result == z3.unsat and len(DUMP["items"]) < DUMP["max"]:
+        try:
+            DUMP["items"].append(solver.to_smt2())
+        except Exception:
+            pass
+
+
 STATS = {"feas_queries": 0, "vc_queries": 0, "solver_s": 0.0, "unknown_feas": 0}
 
 
@@ -708,6 +719,7 @@ class Path:
         first = min(budget, 20000)
         s.set("timeout", first)
         r = guarded_check(s, first / 1000.0 + 5)
+        _maybe_dump(s, r)
         if r == z3.unknown:
             # z3's search is sensitive to scheduling: retry in fresh solvers with other seeds before giving up
             r, fresh_model = _retry_fresh(self.ctx.side + self.pc + list(axioms) + [neg], budget)
@@ -756,6 +768,7 @@ class Path:
         first = min(timeout_ms, 20000)
         s.set("timeout", first)
         r = guarded_check(s, first / 1000.0 + 5)
+        _maybe_dump(s, r)
         if r == z3.unknown and timeout_ms > 5000:
             r, fm = _retry_fresh(s.assertions(), timeout_ms)
             if r == z3.sat:
